@@ -8,6 +8,7 @@ mod c10;
 mod c11;
 mod c13;
 mod c18;
+mod c19;
 mod enc;
 mod natives;
 mod runner;
@@ -215,6 +216,7 @@ fn real_main() {
         "c11" => c11::cmd(),
         "c13" => c13::cmd(),
         "c18" => c18::cmd(),
+        "c19" => c19::cmd(),
         _ => {
             eprintln!("usage: sut <run|...>");
             std::process::exit(2);
